@@ -389,6 +389,7 @@ func (t *stdioClientTransport) handleResponse(rawMessage json.RawMessage) {
 		t.logger.Warnf("No pending request for ID: %d", reqID)
 		return
 	}
+	verifEvent("client.resp.found", "stdio", reqID)
 
 	// Extract result.
 	if response.Result != nil {
@@ -447,6 +448,7 @@ func (t *stdioClientTransport) handleErrorResponse(rawMessage json.RawMessage) {
 		t.logger.Warnf("No pending request for error ID: %d", reqID)
 		return
 	}
+	verifEvent("client.resp.found", "stdio", reqID)
 
 	// Send raw error message.
 	select {
